@@ -85,6 +85,20 @@ def _expr(E, s, x, y, A, xd, yd, Ad):
         r = x.mprod(F, 0)
         rd = tn.tensordot(F, xd, dims=([1], [0]))
         return _weighted(E, 'w', r.full()), _weighted(E, 'w', rd)
+    if e == 'mprod_list':
+        # list form: one matrix per listed mode, applied in the order given (a mode may be listed more than once)
+        n0, nl = s['N'][0], s['N'][-1]
+        F = E.const_tensor([[1.0, 2.0, -1.0][:n0], [0.5, -1.0, 3.0][:n0]], s.get('dtype', 'float64'))          # 2 x n0
+        G = E.const_tensor([[2.0, 1.0], [-1.0, 1.0], [0.5, 3.0]], s.get('dtype', 'float64'))                    # 3 x 2
+        H = E.const_tensor([[1.0, -2.0, 0.5][:nl], [3.0, 1.0, -1.0][:nl]], s.get('dtype', 'float64'))          # 2 x nl
+        if d == 1:
+            r = x.mprod([F, G], [0, 0])
+            rd = tn.tensordot(G, tn.tensordot(F, xd, dims=([1], [0])), dims=([1], [0]))
+        else:
+            r = x.mprod([F, H, G], [0, d - 1, 0])
+            rd = tn.tensordot(G, tn.tensordot(F, xd, dims=([1], [0])), dims=([1], [0]))
+            rd = tn.movedim(tn.tensordot(H, rd, dims=([1], [d - 1])), 0, d - 1)
+        return _weighted(E, 'w', r.full()), _weighted(E, 'w', rd)
     if e == 'scale_by_dot':
         # a TT scaled by a one-element tensor that itself depends on the tracked cores
         v = tt.dot(x, y)
@@ -122,11 +136,12 @@ def ad_grad(E, s):
     tn, tt = E.tn, E.tt
     N, R = s['N'], s['R']
     d = len(N)
-    x, xc = tt_input(E, 'x', N, R, 'float64')
-    y, yc = tt_input(E, 'y', s.get('N2', N), s.get('R2', R), 'float64')
+    # via: the operands are views of other objects (strided slices; transposes of operators), so their cores are non-contiguous
+    x, xc = tt_input(E, 'x', N, R, 'float64', via=s.get('via'))
+    y, yc = tt_input(E, 'y', s.get('N2', N), s.get('R2', R), 'float64', via=s.get('via'))
     A = Ac = Ad = None
     if s['expr'] in ('matvec', 'matmat', 'bilinear'):
-        A, Ac = tt_input(E, 'A', N, s.get('RA', R), 'float64', N)
+        A, Ac = tt_input(E, 'A', N, s.get('RA', R), 'float64', N, via=s.get('via_A', s.get('via')))
     tracked = s['tracked']          # e.g. {'x': [0, 1], 'y': None}; None = all cores
     api = s.get('api', 'grad')
     objs = {'x': x, 'y': y, 'A': A}
